@@ -31,6 +31,7 @@ STRINGS = ["http://h.example", "ws://h.example#frag","http://h.example/%D0%BF%D1
 BIG = [" é/%2f" * 2000, "a" * 9000 + " ", "\U0001f600" * 1200, "%41" * 4000, "k=v w&" * 2500]
 HOSTS = ["пример.рф", "EXAMPLE.com", "bücher.de", "xn--n3h.net", "127.0.0.1", "::1", "a" * 40 + ".org", "İstanbul.tr"]
 SIZES = [0, 1, 2, None, 256]
+UI_TEXTS = ["a\uff20b", "x\uff1ay", "\uff0f", "\uff3bz\uff3d", "plain", "\xe9t\xe9", "\uff1f\uff03", "\u2100"]
 
 
 def op_strategy(npool):
@@ -49,6 +50,9 @@ def op_strategy(npool):
         st.tuples(st.just("div"), i, st.sampled_from(["seg", "a b", "é", "../x"])),
         st.tuples(st.just("with_host"), i, st.integers(0, len(HOSTS) - 1)),
         st.tuples(st.just("join"), i, i),
+        st.tuples(st.just("build_enc"), st.integers(0, 2), st.one_of(st.none(), st.integers(0, 5))),
+        st.tuples(st.just("build"), st.integers(0, 2), st.one_of(st.none(), st.integers(0, 5))),
+        st.tuples(st.just("human_ui"), st.integers(0, len(UI_TEXTS) - 1), st.integers(0, len(UI_TEXTS) - 1)),
         st.tuples(st.just("eq"), i, i),
         st.tuples(st.just("cache_clear")),
         st.tuples(st.just("cache_configure"), st.sampled_from(SIZES), st.sampled_from(SIZES), st.sampled_from(SIZES)),
@@ -112,6 +116,17 @@ def run_op(Y, pool, op):
             r = pool[op[1]].with_host(HOSTS[op[2]])
         elif k == "join":
             r = pool[op[1]].join(pool[op[2]])
+        elif k in ("build_enc", "build"):
+            # the same remaining parts from every thread, a different (or no) query: objects handed out by the module caches are shared
+            kw = {"scheme": "http", "host": "h%d.example" % op[1], "path": "/p", "fragment": "f"}
+            if op[2] is not None:
+                kw["query"] = {"t": str(op[2]), "k": "v"}
+            u = Y.URL.build(encoded=(k == "build_enc"), **kw)
+            r = [str(u), u.raw_query_string, list(u.query.items()), u.raw_path_qs]
+        elif k == "human_ui":
+            u = Y.URL.build(scheme="http", host="h.example", user=UI_TEXTS[op[1]], password=UI_TEXTS[op[2]], path="/" + UI_TEXTS[op[1]])
+            h = u.human_repr()
+            r = [h, Y.URL(h) == u]
         elif k == "eq":
             r = pool[op[1]] == pool[op[2]]
         elif k == "cache_clear":
